@@ -1,6 +1,134 @@
-(* C13 — placeholder while the proofs are being written. *)
+(* C13 — Equality is structural, construction-independent, and refs are unique.
+   This file contains ONLY the property theorems, each closed by `exact <lemma>` and followed by
+   Print Assumptions. Model: Equal.v (values_equal, canonical_tuple, handle_equal / pin_matches,
+   compute_canonical, create_ref / run_mints, mirroring executor.rs and compatibility.rs at
+   /repo HEAD); proofs and the non-vacuity Examples (ex_structural, ex_update, ex_pin, ex_refs,
+   ex_canonical): EqualProofs.v.
+
+   Reading of "functions compare by identity of definition": the code compares the function-table
+   index (Program::register_function dedups structurally identical definitions) and the captured
+   values; `erase` keeps the index. A process is its pid, a resource its resource id (the second
+   component of either handle only types it). *)
 From Quiver Require Import Base Equal EqualProofs.
 
-Theorem C13_stub : compute_canonical [] = [].
-Proof. exact compute_canonical_nil. Qed.
-Print Assumptions C13_stub.
+(* compute_canonical_tuples: two tuple ids get the same canonical id exactly when they have the
+   same name and field labels *)
+Theorem C13_canonical_iff_same_shape : forall ts t1 t2 i1 i2,
+  nth_error ts t1 = Some i1 -> nth_error ts t2 = Some i2 ->
+  (nth_error (compute_canonical ts) t1 = nth_error (compute_canonical ts) t2 <->
+   (t_name i1, t_labels i1) = (t_name i2, t_labels i2)).
+Proof. exact canonical_iff_same_shape. Qed.
+Print Assumptions C13_canonical_iff_same_shape.
+
+(* ... and that id is the lowest tuple id with that name and those labels *)
+Theorem C13_canonical_is_lowest : forall ts t info,
+  nth_error ts t = Some info ->
+  exists c, nth_error (compute_canonical ts) t = Some c /\ (c <= t)%nat /\
+            (exists ic, nth_error ts c = Some ic /\ shape_of ic = shape_of info) /\
+            (forall j ij, (j < c)%nat -> nth_error ts j = Some ij -> shape_of ij <> shape_of info).
+Proof. exact canonical_is_lowest. Qed.
+Print Assumptions C13_canonical_is_lowest.
+
+(* values_equal is true exactly when the two values are structurally the same value *)
+Theorem C13_values_equal_structural : forall P,
+  wf_tables P ->
+  forall v w, wf_value P v -> wf_value P w ->
+  (values_equal P v w = true <-> erase P v = erase P w).
+Proof. exact values_equal_structural. Qed.
+Print Assumptions C13_values_equal_structural.
+
+Theorem C13_values_equal_decides_erased_equality : forall P v w,
+  wf_tables P -> wf_value P v -> wf_value P w ->
+  values_equal P v w = evalue_eqb (erase P v) (erase P w).
+Proof. exact values_equal_is_erase_eqb. Qed.
+Print Assumptions C13_values_equal_decides_erased_equality.
+
+Theorem C13_equal_refl : forall P v, wf_tables P -> wf_value P v -> values_equal P v v = true.
+Proof. exact equal_refl. Qed.
+Print Assumptions C13_equal_refl.
+
+Theorem C13_equal_sym : forall P v w,
+  wf_tables P -> wf_value P v -> wf_value P w ->
+  values_equal P v w = values_equal P w v.
+Proof. exact equal_sym. Qed.
+Print Assumptions C13_equal_sym.
+
+Theorem C13_equal_trans : forall P u v w,
+  wf_tables P -> wf_value P u -> wf_value P v -> wf_value P w ->
+  values_equal P u v = true -> values_equal P v w = true -> values_equal P u w = true.
+Proof. exact equal_trans. Qed.
+Print Assumptions C13_equal_trans.
+
+(* construction independence, binaries: only the bytes count (constant / heap slot / rope) *)
+Theorem C13_equal_construction_independent_binary : forall P a b,
+  values_equal P (VBin a) (VBin b) = true <->
+  exists bs, bin_bytes P a = Some bs /\ bin_bytes P b = Some bs.
+Proof. exact equal_binary_representation_independent. Qed.
+Print Assumptions C13_equal_construction_independent_binary.
+
+Theorem C13_equal_constant_vs_heap : forall P k i bs,
+  nth_error (constants P) k = Some (CBin bs) -> nth_error (heap P) i = Some bs ->
+  values_equal P (VBin (BConst k)) (VBin (BHeap i)) = true /\
+  values_equal P (VBin (BHeap i)) (VBin (BConst k)) = true.
+Proof. exact equal_constant_vs_heap. Qed.
+Print Assumptions C13_equal_constant_vs_heap.
+
+(* construction independence, tuples: ids that differ but share name + labels *)
+Theorem C13_equal_construction_independent_tuple : forall P t1 t2 i1 i2 fs1 fs2,
+  wf_tables P ->
+  nth_error (tuples P) t1 = Some i1 -> nth_error (tuples P) t2 = Some i2 ->
+  (t_name i1, t_labels i1) = (t_name i2, t_labels i2) ->
+  Forall2 (fun x y => values_equal P x y = true) fs1 fs2 ->
+  values_equal P (VTuple t1 fs1) (VTuple t2 fs2) = true.
+Proof. exact equal_tuple_id_independent. Qed.
+Print Assumptions C13_equal_construction_independent_tuple.
+
+(* update_program appends constants / tuples (the heap grows) and installs the canonical table
+   recomputed over the whole tuple list: verdicts on existing values do not change *)
+Theorem C13_equal_stable_under_update : forall P cs hs ts v w,
+  wf_tables P -> wf_value P v -> wf_value P w ->
+  values_equal (update_tables P cs hs ts) v w = values_equal P v w.
+Proof. exact equal_stable_under_update. Qed.
+Print Assumptions C13_equal_stable_under_update.
+
+Theorem C13_canonical_stable_under_update : forall P cs hs ts t,
+  wf_tables P -> (t < length (tuples P))%nat ->
+  canonical_tuple (update_tables P cs hs ts) t = canonical_tuple P t.
+Proof. exact canonical_stable_under_update. Qed.
+Print Assumptions C13_canonical_stable_under_update.
+
+(* pins, literals and repeated binders all compile to `Equal(2); Not; JumpIf fail`: the
+   requirement is met exactly when values_equal holds (also when both values are nil) *)
+Theorem C13_pin_matches_spec : forall P a b,
+  wf_tables P -> wf_value P a ->
+  pin_matches P a b = Val (values_equal P a b).
+Proof. exact pin_matches_spec. Qed.
+Print Assumptions C13_pin_matches_spec.
+
+Theorem C13_handle_equal_verdict : forall P first rest below,
+  handle_equal P (S (length rest)) (rev (first :: rest) ++ below) =
+  Val ((if forallb (values_equal P first) (first :: rest) then ok_value else nil_value) :: below).
+Proof. exact handle_equal_verdict. Qed.
+Print Assumptions C13_handle_equal_verdict.
+
+(* create_ref is injective over (worker_id, counter) within the 16/48-bit fields *)
+Theorem C13_refs_unique : forall w1 n1 w2 n2,
+  0 <= w1 < 2 ^ 16 -> 0 <= w2 < 2 ^ 16 -> 0 <= n1 < 2 ^ 48 -> 0 <= n2 < 2 ^ 48 ->
+  ref_value w1 n1 = ref_value w2 n2 -> w1 = w2 /\ n1 = n2.
+Proof. exact create_ref_injective. Qed.
+Print Assumptions C13_refs_unique.
+
+(* a system of executors with distinct worker ids never mints the same ref twice, under any
+   schedule, as long as no counter passes 2^48 (a bound the code does not enforce) *)
+Theorem C13_refs_unique_system : forall m sys sched,
+  NoDup (map worker_id sys) ->
+  Forall (fun e => 0 <= worker_id e < 2 ^ 16 /\ 0 <= next_ref e /\
+                   next_ref e + Z.of_nat (length sched) <= 2 ^ 48) sys ->
+  exists refs, run_mints m sys sched = Val refs /\ NoDup refs.
+Proof. exact refs_unique_system. Qed.
+Print Assumptions C13_refs_unique_system.
+
+(* the 2^48 hypothesis is necessary: past it, worker 0's counter runs into worker 1's refs *)
+Theorem C13_refs_bound_is_tight : ref_value 0 (2 ^ 48) = ref_value 1 0.
+Proof. exact create_ref_collides_beyond_bound. Qed.
+Print Assumptions C13_refs_bound_is_tight.
